@@ -1,6 +1,7 @@
 package main
 
 import (
+	"regexp"
 	"encoding/json"
 	"fmt"
 	"github.com/valinurovam/garagemq/admin"
@@ -48,6 +49,8 @@ type stepResult struct {
 }
 
 type session struct {
+	genTags  map[string]string // server-made consumer tag ("<unix time>_<id>") -> canonical name, in order of appearance
+	genReal  map[string]string // canonical name -> real tag
 	connBase uint64 // connections opened before the last restart: the new server numbers its connections from 1 again
 	rawSent  int
 	rawCount int
@@ -118,6 +121,32 @@ func newSession(cfg sessionCfg, settle time.Duration) (*session, error) {
 
 var adminPanics int64
 var pollPaused int32
+
+var genTagRe = regexp.MustCompile(`\b[0-9]{9,11}_[0-9]+\b`)
+
+// canon renames the consumer tags the server made up (they contain the wall clock) by order of first appearance,
+// which is how the model numbers them
+func (s *session) canon(text string) string {
+	return genTagRe.ReplaceAllStringFunc(text, func(t string) string {
+		if s.genTags == nil {
+			s.genTags, s.genReal = map[string]string{}, map[string]string{}
+		}
+		if c, ok := s.genTags[t]; ok {
+			return c
+		}
+		c := fmt.Sprintf("amq.gen-%d", len(s.genTags)+1)
+		s.genTags[t], s.genReal[c] = c, t
+		return c
+	})
+}
+
+// realTag is the inverse, for ops that name a consumer
+func (s *session) realTag(t string) string {
+	if r, ok := s.genReal[t]; ok {
+		return r
+	}
+	return t
+}
 
 // adminPoll serves every admin endpoint once, in-process (the handlers read the same server object an admin HTTP
 // client would reach); returns the overview counters
@@ -660,7 +689,7 @@ func (s *session) exec(op string) string {
 		w := method(60, 20)
 		w.short(0)
 		w.shortstr(deq(f[3]))
-		w.shortstr(f[4])
+		w.shortstr(deq(f[4])) // "-" = empty: the server makes the tag up
 		w.bit(false)
 		w.bit(atob(f[5]))
 		w.bit(atob(f[6]))
@@ -669,7 +698,7 @@ func (s *session) exec(op string) string {
 		err = c.sendMethod(h, w)
 	case "CANCEL": // CANCEL c h tag nw
 		w := method(60, 30)
-		w.shortstr(f[3])
+		w.shortstr(s.realTag(f[3]))
 		w.bit(atob(f[4]))
 		err = c.sendMethod(h, w)
 	case "PUB": // PUB c h ex key mand imm pers uid len+len+..
@@ -874,6 +903,12 @@ func (s *session) step(op string) stepResult {
 	}
 	if r.Frames == nil {
 		r.Frames = []string{}
+	}
+	for i := range r.Frames {
+		r.Frames[i] = s.canon(r.Frames[i])
+	}
+	for i := range r.Snap {
+		r.Snap[i] = s.canon(r.Snap[i])
 	}
 	return r
 }
